@@ -1,6 +1,7 @@
 HOOK_COMMITS = ["d5fe92d", "HEAD~0 (see git log --grep='verif hooks' in /repo)"]
 
 ENGINES = [
+    {"name": "kgx", "path": "harness/kgx", "serves_properties": ["C10"], "kind_free_text": "in-process keep-going BuildSystemFrontend runner: failing-subset x flag x failure-kind enumeration with recorded failures"},
     {"name": "worldx2", "path": "harness/worldx2", "serves_properties": ["C12", "C11"], "kind_free_text": "directory-tree shape x edit explorer and discovered-dependency history explorer on top of worldx"},
     {"name": "worldx3", "path": "harness/worldx3", "serves_properties": ["C18"], "kind_free_text": "Ninja manifest family x edit-history explorer through `llbuild ninja build` on top of worldx"},
     {"name": "stalex", "path": "harness/stalex", "serves_properties": ["C14"], "kind_free_text": "in-process stale-file-removal runner with recording file system, exhaustive list/roots triples"},
@@ -102,7 +103,9 @@ TEXT.update({
             "text": "7 (34) descriptions with up to 4 commands over file, virtual, directory and multi-output edges: every subset of commands is made to fail (exit 1 before/after writing, "
                     "SIGKILL, missing undeclared input, unwritable output) in build 0..2 of a history, serial and parallel; no consumer of a failed command may run, llbuild must exit "
                     "non-zero, the next build must retry the failed commands, and after repair the build must converge to the clean-build state; plus SIGINT scenarios with a gated helper.",
-            "note": "Cancellation timing of -j4 runs is real time (one gated command per scenario)."},
+            "note": "Cancellation timing of -j4 runs is real time (one gated command per scenario). Second part (kgx): the same oracle in process under a KEEP-GOING client (a BuildSystemFrontend "
+                    "delegate that counts failures and does not cancel, new frontend per build on one SQLite database): 6 (10) descriptions x every failing subset x {no flag, allow-modified-outputs, "
+                    "allow-missing-inputs} x {fail-before, fail-after, kill-after} x lanes x with/without a prior successful build; failed results are really recorded there and must be retried."},
     "C11": {"design_ref": "DESIGN.md §5 C11",
             "technique": "bounded-exhaustive enumeration of dependency files (all path strings over the format's special characters x layouts, all truncations) on the real parsers under ASan",
             "text": "All path strings up to length 4 (6 thorough) over {a,' ','#','$','\\',':','/','.'} and pairs of them, rendered with the documented escaping into "
